@@ -19,6 +19,8 @@ import GqlVerif.Proofs.C01MixedContentW
 import GqlVerif.Proofs.C01MixedContentSkip
 import GqlVerif.Proofs.C01NestedW
 import GqlVerif.Proofs.C01NestedL
+import GqlVerif.Proofs.C01NestedAbsW
+import GqlVerif.Proofs.C01NestedAbsJ
 open GqlVerif.C01
 #print axioms accepts_mono
 #print axioms conforming_int_accepted
@@ -295,3 +297,27 @@ open GqlVerif.C01
 #print axioms GqlVerif.C01N.n3_items_shape
 #print axioms GqlVerif.C01N.nested_keys_needed
 #print axioms GqlVerif.C01N.nested_rust_needed
+-- NestedAbsOp: nested fragments spread at abstract positions (Proofs/C01NestedAbs*.lean, P46)
+#print axioms GqlVerif.C01NA.nestedabs_items_shape
+#print axioms GqlVerif.C01NA.nestedabs_accepts
+#print axioms GqlVerif.C01NA.nestedabs_lossless
+#print axioms GqlVerif.C01NA.nestedabs_roundtrip
+#print axioms GqlVerif.C01NA.nestedAbsOp_of_nestedOp
+#print axioms GqlVerif.C01NA.bodyItemsA_eq_M
+#print axioms GqlVerif.C01NA.conformsLooseA_eq_N
+#print axioms GqlVerif.C01NA.canonSelA_eq_N
+#print axioms GqlVerif.C01NA.nestedAbsKeysOk_eq_N
+#print axioms GqlVerif.C01NA.nestedAbsSideOk_eq_N
+#print axioms GqlVerif.C01NA.absTagOk_of_nestedOp
+#print axioms GqlVerif.C01NA.nestedabs_roundtrip_on_nestedOp
+#print axioms GqlVerif.C01NA.na_class
+#print axioms GqlVerif.C01NA.na_not_N
+#print axioms GqlVerif.C01NA.na_items_shape
+#print axioms GqlVerif.C01NA.na_roundtrip
+#print axioms GqlVerif.C01NA.na_roundtrip_eval
+#print axioms GqlVerif.C01NA.na_roundtrip_cat
+#print axioms GqlVerif.C01NA.na_accepts
+#print axioms GqlVerif.C01NA.nc_items_shape
+#print axioms GqlVerif.C01NA.nc_roundtrip
+#print axioms GqlVerif.C01NA.nestedabs_tag_needed
+#print axioms GqlVerif.C01NA.nestedabs_variant_keys_needed
